@@ -162,6 +162,24 @@ def writers_rule(ctx, report, rule="WRITE"):
                 good = arg.k == "vfield" and arg.a[1] == v
                 seen[v] = (t.callee.name, good)
         ok = seen == {"V4": ("ip4", True), "V6": ("ip6", True)}
+        if not ok and not seen:
+            # the bodies of ip4 / ip6 written out per arm: add_value(IP_ENR_KEY, octets of the V4 payload) resp. IP6 / V6
+            from rules.tables import peel_bytes
+            got = {}
+            for c in typed_calls(ctx, f, ("add_value",)):
+                v = variant_at(an, c["bb"], 2) if "bb" in c else None
+                val = peel_bytes(strip(c["args"][2]))
+                src = val
+                if src.k == "call" and src.a[0].name == "octets" and src.a[1]:
+                    src = strip(src.a[1][0])
+                while src.k in ("ref", "deref"):
+                    src = strip(src.a[0])
+                fam = src.a[1] if src.k == "vfield" and strip(src.a[0]).k == "param" and strip(src.a[0]).a[0] == 2 else None
+                cls = value_class_of_expr(c["targs"][1], c["args"][2])
+                got[fam] = (c["key"], cls, v)
+            ok = got == {"V4": (b"ip", ("BYTES", 4), "V4"), "V6": (b"ip6", ("BYTES", 16), "V6")} or \
+                {k_: v_[:2] for k_, v_ in got.items()} == {"V4": (b"ip", ("BYTES", 4)), "V6": (b"ip6", ("BYTES", 16))} and all(v_[2] in (None, k_) for k_, v_ in got.items())
+            seen = got
         report.check(rule, "Builder::ip", ok, "Builder::ip delegates V4 -> ip4, V6 -> ip6", "Builder::ip dispatch is %s" % seen, fn=f.path, sp=f.span, config=cfg)
     generic_writers_rule(ctx, report, rule)
 
@@ -380,6 +398,29 @@ def readers_rule(ctx, report, rule="READ"):
             if es.k == "call" and es.a[0].name == "map" and es.a[1]:
                 g = strip(es.a[1][0])
                 ok = g.k == "call" and g.a[0].name == "get" and "BTreeMap" in g.a[0].fn and P.match(g.a[1][0], P.field(P.param(1), "content")) is not None and strip(g.a[1][1]).k == "param"
+        if not ok:
+            # `let v = self.content.get(key.as_ref())?; Some(v.as_ref())` and match / if-let spellings of the same
+            from kernel import payload_base
+            good, bad_ = 0, 0
+            for bb_, idx_, e_, node_ in rets:
+                for a_ in (strip(e_).a[0] if strip(e_).k == "phi" else [strip(e_)]):
+                    a_ = strip(a_)
+                    if a_.k == "call" and a_.a[0].name == "from_residual":
+                        continue
+                    if a_.k == "agg" and a_.a[0].endswith("Option::None"):
+                        continue
+                    if a_.k == "agg" and a_.a[0].endswith("Option::Some"):
+                        v_ = strip(a_.a[1]["0"])
+                        for _ in range(4):
+                            if v_.k == "call" and v_.a[0].name in ("as_ref", "deref", "as_slice", "borrow") and v_.a[1]:
+                                v_ = strip(v_.a[1][0])
+                        base_, n_ = payload_base(v_)
+                        g_ = strip(base_)
+                        if n_ == 1 and g_.k == "call" and g_.a[0].name == "get" and "BTreeMap" in g_.a[0].fn and P.match(g_.a[1][0], P.field(P.param(1), "content")) is not None and any(x.k == "param" and x.a[0] == 2 for x in g_.a[1][1].walk()):
+                            good += 1
+                            continue
+                    bad_ += 1
+            ok = good >= 1 and bad_ == 0
         report.check(rule, "get_raw_rlp", ok, "get_raw_rlp(key) = content.get(key) as a slice", "get_raw_rlp does not return the stored value of exactly the requested key", fn=f.path, sp=f.span, config=cfg)
     f = fn_or_violate(ctx, report, rule, "Enr::<K>::get_decodable")
     if f is not None:
